@@ -29,6 +29,7 @@ def feature_sites(repo=REPO):
                     else 'assertion' if item.startswith(('debug_assert', 'panic!("Sorting failure")')) else 'trait-or-impl' if re.match(r'(pub )?(trait|impl)', item)
                     else 'macro-codegen' if rel.startswith('derive/') else 'OTHER:' + item[:60])
             m = re.search(r'cfg(_attr)?\(.*', cond)
+            if kind == 'assertion': kind += ':' + ' '.join(item.split())[:80]      # what an extra assertion asserts is part of the pinned site
             sites.append(rel + '|' + (m.group(0) if m else cond)[:120] + '|' + kind)
     return sites
 
@@ -82,6 +83,7 @@ def main():
         if 'debug_diffs' in fs: obs = canon_impl_lines(obs, by, meta)
         for l in obs:
             p = l.split(' ', 2)
+            if len(p) >= 2 and p[1] in ('NSB', 'NSRB', 'BCB', 'BCRB', 'DWN', 'DWB', 'AWN', 'AWB', 'XWN', 'XWB'): continue     # wire observations exist only with both codecs (C14)
             if len(p) == 3 and p[1] in ('D', 'DR'):
                 n = p[2][2:] if p[2].startswith('N=') else ('PANIC' if p[2] == 'PANIC' else str(len(O.split_entries(p[2]))))
                 norm.append(f"{p[0]} {p[1]} N={n}")
